@@ -184,15 +184,18 @@ def handle (args : List String) : String :=
       let s ← pShape s; let z ← pOptInts z; let k ← pBool k
       let o ← (if o == "inf" then some vector_norm.Ord.posInf else if o == "-inf" then some vector_norm.Ord.negInf else (pInt o).map vector_norm.Ord.int)
       pure (out (vector_norm.term s.length o z k) (rS (vector_norm.model s z k)) (rS (vector_norm.spec s z k)))).getD bad
-  | ["sum", s] => (do
-      let s ← pShape s
-      pure (out (sum.term s.length) (rS (sum.model s)) (rS (sum.spec s)))).getD bad
-  | ["sum_dim", s, z, k] => (do
-      let s ← pShape s; let z ← pOptInts z; let k ← pBool k
-      pure (out (sum_dim.term s.length z k) (rS (sum_dim.model s z k)) (rS (sum_dim.spec s z k)))).getD bad
-  | ["mean_dim", s, z, k] => (do
-      let s ← pShape s; let z ← pInts z; let k ← pBool k
-      pure (out (mean_dim.term s.length z k) (rS (mean_dim.model s z k)) (rS (mean_dim.spec s z k)))).getD bad
+  | ["sum", s, c] => (do
+      let s ← pShape s; let c ← pOptInt c
+      pure (out (sum.term s.length (c.map Int.toNat)) (rS (sum.model s)) (rS (sum.spec s)))).getD bad
+  | ["sum_dim", s, z, k, c] => (do
+      let s ← pShape s; let z ← pOptInts z; let k ← pBool k; let c ← pOptInt c
+      pure (out (sum_dim.term s.length z k (c.map Int.toNat)) (rS (sum_dim.model s z k)) (rS (sum_dim.spec s z k)))).getD bad
+  | ["mean_dim", s, z, k, c] => (do
+      let s ← pShape s; let z ← pInts z; let k ← pBool k; let c ← pOptInt c
+      pure (out (mean_dim.term s.length z k (c.map Int.toNat)) (rS (mean_dim.model s z k)) (rS (mean_dim.spec s z k)))).getD bad
+  | ["prod_dim", s, z, k, c] => (do
+      let s ← pShape s; let d ← pInt z; let k ← pBool k; let c ← pOptInt c
+      pure (out (prod_dim.term s.length d k (c.map Int.toNat)) (rS (prod_dim.model s d k)) (rS (prod_dim.spec s d k)))).getD bad
   | [f, s, z, k] =>
     if f == "amax" || f == "amin" then (do
       let s ← pShape s; let z ← pInts z; let k ← pBool k
@@ -209,9 +212,6 @@ def handle (args : List String) : String :=
       let s ← pShape s; let d ← pOptInt z; let k ← pBool k
       let nm := if f == "argmax" then "ArgMax" else "ArgMin"
       pure (out (argmax.term nm s.length d k) (rS (argmax.model s d k)) (rS (argmax.spec s d k)))).getD bad
-    else if f == "prod_dim" then (do
-      let s ← pShape s; let d ← pInt z; let k ← pBool k
-      pure (out (prod_dim.term s.length d k) (rS (prod_dim.model s d k)) (rS (prod_dim.spec s d k)))).getD bad
     -- integer arithmetic with three ints
     else if f == "add" then (do
       let a ← pInt s; let b ← pInt z; let c ← pInt k
@@ -235,9 +235,9 @@ def handle (args : List String) : String :=
   | ["any", s] => (do
       let s ← pShape s
       pure (out (all_.term "ReduceMax" s.length) (rS (all_.model s)) (rS (all_.spec s)))).getD bad
-  | ["prod", s, i] => (do
-      let s ← pShape s; let i ← pBool i
-      pure (out (prod.term i) (rS (prod.model s)) (rS (prod.spec s)))).getD bad
+  | ["prod", s, i, c, _] => (do
+      let s ← pShape s; let i ← pBool i; let c ← pOptInt c
+      pure (out (prod.term i (c.map Int.toNat)) (rS (prod.model s)) (rS (prod.spec s)))).getD bad
   | ["cumsum", s, d, c, _] => (do
       let s ← pShape s; let d ← pInt d; let c ← pOptInt c
       pure (out (cumsum.term s.length d (c.map Int.toNat)) (rS (cumsum.model s d)) (rS (cumsum.spec s d)))).getD bad
